@@ -1456,10 +1456,17 @@ class QueryBuilder(Selectable, Term):  # type:ignore[misc]
 
         if term == "*":
             self._select_star = True
-            self._selects = [Star()]
+            # the star makes plain columns redundant, not expressions or columns selected under an alias of their own
+            self._selects = [
+                select for select in self._selects if not self._is_plain_column(select)
+            ] + [Star()]
             return
 
         self._select_field(Field(term, table=self._from[0]))
+
+    @staticmethod
+    def _is_plain_column(select: Term) -> bool:
+        return isinstance(select, Field) and select.alias is None
 
     def _select_field(self, term: Field) -> None:
         if self._select_star:
@@ -1475,7 +1482,8 @@ class QueryBuilder(Selectable, Term):  # type:ignore[misc]
             self._selects = [
                 select
                 for select in self._selects
-                if not hasattr(select, "table") or term.table != select.table
+                if not self._is_plain_column(select)
+                or term.table != select.table  # type:ignore[attr-defined]
             ]
             self._select_star_tables.add(cast(Table, term.table))
 
